@@ -12,6 +12,7 @@ import (
 	"flag"
 	"fmt"
 	"os"
+	"strings"
 	"time"
 
 	getoptions "github.com/DavidGamba/go-getoptions"
@@ -63,6 +64,18 @@ func runDispatch(seed int64, p *ProgDef, argv []string) *DispatchObs {
 			}()
 			r.help = b.Opt.Help()
 			ctx := context.WithValue(context.Background(), ctxKey("verif"), "token")
+			// the caller's context is passed on as it is, whatever its state: every fifth command line
+			// (by its text) is dispatched with a context that is already cancelled or past its deadline
+			switch h := len(strings.Join(argv, " ")) % 10; h {
+			case 3:
+				c2, cancel := context.WithCancel(ctx)
+				cancel()
+				ctx = c2
+			case 7:
+				c2, cancel := context.WithDeadline(ctx, time.Unix(0, 0))
+				defer cancel()
+				ctx = c2
+			}
 			r.err = b.Opt.Dispatch(ctx, obs.Remaining)
 		}()
 		var r res
@@ -178,6 +191,9 @@ func cmdDispatch(args []string) {
 				break
 			}
 		}
+		if d.Panic == "" && !d.Hang && d.dterm != nil && d.DIsHelp && prog.Help {
+			helpRouteOracle(*seed, prog, argv, d)
+		}
 		if d.Panic != "" || d.Hang || d.dterm == nil {
 			enc.Encode(d)
 			fmt.Printf("IMPL-FAILURE argv=%q panic=%q hang=%v\n", d.Argv, d.Panic, d.Hang)
@@ -216,4 +232,57 @@ func cmdDispatch(args []string) {
 		f.Close()
 	}
 	fmt.Printf("cases=%d skipped_definitions=%d\n", len(defs), skipped)
+}
+
+// helpRouteOracle - C18, last sentence: the help of a level is the same text whichever way it is
+// asked for.  The same level is asked for again through another route (the help option appended to
+// the command path; when that is the route already used, the parent's help command with the last
+// command as topic); when both requests end in help for the same command path the texts must be equal.
+func helpRouteOracle(seed int64, p *ProgDef, argv []string, d *DispatchObs) {
+	isHelpTok := func(t string) bool {
+		if t == p.HelpName || t == "--"+p.HelpName || t == "-"+p.HelpName {
+			return true
+		}
+		for _, a := range p.HelpAlias {
+			if t == "-"+a || t == "--"+a {
+				return true
+			}
+		}
+		return false
+	}
+	toks := []string{}
+	for _, t := range argv {
+		if !isHelpTok(t) {
+			toks = append(toks, t)
+		}
+	}
+	alt := append(append([]string{}, toks...), "--"+p.HelpName)
+	if fmt.Sprintf("%q", alt) == fmt.Sprintf("%q", argv) {
+		if len(toks) == 0 {
+			alt = []string{p.HelpName}
+		} else {
+			alt = append(append(append([]string{}, toks[:len(toks)-1]...), p.HelpName), toks[len(toks)-1])
+		}
+	}
+	d2 := runDispatch(seed, p, alt)
+	if d2.Panic != "" || d2.Hang || d2.dterm == nil || !d2.DIsHelp {
+		return
+	}
+	level := func(text string) string {
+		text = strings.TrimPrefix(text, "NAME:\n")
+		if i := strings.Index(text, "\n"); i >= 0 {
+			text = text[:i]
+		}
+		if i := strings.Index(text, " - "); i >= 0 {
+			text = text[:i]
+		}
+		return strings.TrimSpace(text)
+	}
+	if d.DWriter == "" || d2.DWriter == "" || level(d.DWriter) != level(d2.DWriter) {
+		return
+	}
+	if d.DWriter != d2.DWriter {
+		d.Oracle["C18"] = append(d.Oracle["C18"], OracleHit{Key: "help-route",
+			What: fmt.Sprintf("the help of `%s` asked for as %q and as %q differs: %q versus %q", level(d.DWriter), argv, alt, d.DWriter, d2.DWriter)})
+	}
 }
